@@ -36,7 +36,9 @@ KwBad(v) == IF v.k = "list" THEN SeqBad(v.xs, 1) ELSE IF IsBad(v) THEN v ELSE No
 KwParams(v) == IF v.t = "lst" THEN ParamsSeq(v.xs) ELSE ParamsIn(v)
 EvalArgs(a, V, PN) ==
   LET args == EvalSeq(a.args, V, PN)
-      kw == [i \in 1..Len(a.kw) |-> [k |-> a.kw[i].k, v |-> KwVal(a.kw[i].v, V, PN)]]
+      \* a keyword whose value is an empty list "k=[]" is dropped (pinned by the repository's own test-suite)
+      akw == SelectSeq(a.kw, LAMBDA x : ~(x.v.t = "lst" /\ Len(x.v.xs) = 0))
+      kw == [i \in 1..Len(akw) |-> [k |-> akw[i].k, v |-> KwVal(akw[i].v, V, PN)]]
       b1 == SeqBad(args, 1)
       b2 == LET RECURSIVE F(_) F(i) == IF i > Len(kw) THEN None ELSE IF KwBad(kw[i].v) # None THEN KwBad(kw[i].v) ELSE F(i + 1) IN F(1)
       dup == \E i, j \in 1..Len(kw) : i < j /\ kw[i].k = kw[j].k
